@@ -67,6 +67,9 @@ kf = ["# (iii) \\DDD in a quoted string is decoded as (d1<<16)+(d2<<8)+d3 -> cla
       case("m", O, 'a\\;b 60 IN A 1.2.3.4\n', recs=[rec(nameb([b"a;b", b"example", b"com"]), 1, 60, A("1.2.3.4"))]),
       case("m", O, 'x 60 IN NS a\\;b\n', recs=[rec(name("x.example.com"), 2, 60, "N," + nameb([b"a;b", b"example", b"com"]))]),
       ]
+kf += ["# (vi) CERT: only the first piece of the base64 data is decoded (RFC 4398 2.2 allows any number of pieces) -> class cert-base64-split",
+       case("m", O, "c 60 CERT 1 2 3 QUJD REVG\n", recs=[rec(name("c.example.com"), 37, 60, "CERT,1,2,3,414243444546")]),
+       case("m", O, "c 60 CERT 1 2 3 ( QUJ ; piece\n DREVG )\n", recs=[rec(name("c.example.com"), 37, 60, "CERT,1,2,3,414243444546")])]
 files["known-findings.case"] = kf
 
 # ---- layouts that must load (RFC 1035 §5.3 example, with a $TTL because RFC 2308 removed the SOA-minimum default)
@@ -192,6 +195,37 @@ lim = ["# 63.63.63.49 under example.com. is exactly 255 octets: must load, writt
             recs=[rec(name("a.example.com"), 2, 60, N("n.example.com")), rec(name("b.other"), 2, 60, N("n.other")), rec(name("b.other"), 15, 60, "MX,1," + name("n.other"))]),
        ]
 files["name-limits-and-origin-switch.case"] = lim
+
+# ---- data written in pieces (RFC 6698 2.2, RFC 4034 5.3), parenthesis edge cases (seeded changes round 2)
+W = name("w.example.com")
+sp = ["# hex data split anywhere — odd offsets, several pieces, over parenthesised lines with comments — is the same data",
+      case("m", O, "w 60 TLSA 3 1 1 a1b2c3d4\n", recs=[rec(W, 52, 60, "TLSA,3,1,1,a1b2c3d4")]),
+      case("m", O, "w 60 TLSA 3 1 1 a1b 2c3 d4\n", recs=[rec(W, 52, 60, "TLSA,3,1,1,a1b2c3d4")]),
+      case("m", O, "w 60 TLSA 3 1 1 a 1 b 2 c 3 d 4\n", recs=[rec(W, 52, 60, "TLSA,3,1,1,a1b2c3d4")]),
+      case("m", O, "w 60 TLSA 3 1 1 ( A1b ; odd\n\t2C3 ; again\n d4 )\n", recs=[rec(W, 52, 60, "TLSA,3,1,1,a1b2c3d4")]),
+      case("m", O, "w 60 TLSA ( 3 1\n 1 a1b2c ) 3d4\n", recs=[rec(W, 52, 60, "TLSA,3,1,1,a1b2c3d4")]),
+      case("m", O, "w 60 SMIMEA 0 0 1 ( 0 ; one digit\n 0ff )\n", recs=[rec(W, 53, 60, "SMIMEA,0,0,1,00ff")]),
+      case("m", O, "w 60 DS 12345 RSASHA1 2 ( 0a1 ; c\n b2c3d )\n", recs=[rec(W, 43, 60, "DS,12345,5,2,0a1b2c3d")]),
+      case("m", O, "w 60 DS 60485 8 2 2BB183AF5F22588179A53B0A 98631FAD1A292118\n", recs=[rec(W, 43, 60, "DS,60485,8,2,2bb183af5f22588179a53b0a98631fad1a292118")]),
+      case("m", O, "w 60 SSHFP 2 1 123456789abcdef67890123456789abcdef67890\n", recs=[rec(W, 44, 60, "SSHFP,2,1,123456789abcdef67890123456789abcdef67890")]),
+      case("m", O, "w 60 CERT 1 2 3 QUJDREVG\n", recs=[rec(W, 37, 60, "CERT,1,2,3,414243444546")]),
+      case("m", O, "w 60 OPENPGPKEY QUJDREU=\n", recs=[rec(W, 61, 60, "OPENPGPKEY,4142434445")]),
+      "# malformed data: odd number of digits / not hex / nothing (observations: DS drops a trailing odd digit, SSHFP and OPENPGPKEY refuse pieces)",
+      ] + [case("m", O, t) for t in ["w 60 TLSA 3 1 1 a1b\n", "w 60 TLSA 3 1 1 a1 g2\n", "w 60 TLSA 3 1 1\n", "w 60 TLSA 3 1 1 \"a1 b2\"\n", "w 60 TLSA 256 1 1 aa\n", "w 60 TLSA +3 1 1 aa\n",
+          "w 60 DS 1 5 2 abc\n", "w 60 DS 1 5 2 +a+b\n", "w 60 DS 1 5 2\n", "w 60 DS 1 rsasha1 2 aa\n", "w 60 DS 65536 5 2 aa\n", "w 60 DS 1 5 2 zz\n",
+          "w 60 SSHFP 2 1 1234 5678\n", "w 60 SSHFP 2 1 \"12 34\"\n", "w 60 SSHFP 2 1 \"\"\n", "w 60 OPENPGPKEY QUJD REU=\n", "w 60 CERT 1 2 3\n", "w 60 CERT 1 2 3 QUJ\n"]] + [
+      "# several groups per record, parentheses inside quoted strings and comments: must load",
+      case("m", O, "w 60 TXT ( a ) ( b ) c\n", recs=[rec(W, 16, 60, TXT(b"a", b"b", b"c"))]),
+      case("m", O, "w 60 TXT ( a\n) (\nb ) ( ) c\n", recs=[rec(W, 16, 60, TXT(b"a", b"b", b"c"))]),
+      case("m", O, 'w 60 TXT "( x" ")" "(("\n', recs=[rec(W, 16, 60, TXT(b"( x", b")", b"(("))]),
+      case("m", O, 'w 60 TXT ( "a(b"\n")" ) "("\n', recs=[rec(W, 16, 60, TXT(b"a(b", b")", b"("))]),
+      case("m", O, "; ( ( (\nw 60 TXT a ; ) ) ( \n ; )\n", recs=[rec(W, 16, 60, TXT(b"a"))]),
+      case("m", O, "w 60 TXT ( a ; ( ) (( \n b ; )\n )\n", recs=[rec(W, 16, 60, TXT(b"a", b"b"))]),
+      "# nesting, stray and unbalanced parentheses: Ok or Err, never a panic or a hang",
+      ] + [case("m", O, t) for t in ["w 60 TXT ( a ( b ) c )\n", "w 60 TXT ( (\n", "w 60 TXT ( ( x", "w 60 TXT (((((((((( x ))))))))))\n", "w 60 TXT " + "(" * 1000 + " x\n",
+          "w 60 TXT " + "( " * 1000 + "x " + ") " * 1000 + "\n", "w 60 TXT " + "(\n" * 300, "w 60 TXT ) (\n", "w 60 TXT ( ) )\n", "w 60 TXT (a (b\n", "w 60 TXT ( \"a ( \n",
+          "w 60 TXT ( ; (\n", "w 60 TXT ( a ; )", "( w 60 TXT a )\n", "w ( 60 TXT a )\n", "w 60 ( TXT a )\n", "w 60 TXT \\( a\n", "w 60 TXT a\\) b\n"]]
+files["split-data-and-parens.case"] = sp
 
 for fn, lines in files.items():
     with open(os.path.join(HERE, fn), "w") as f:
